@@ -84,7 +84,6 @@ Proof.
   rewrite Hmod. cbn [Z.eqb negb].
   rewrite (u64_small D) by lia. rewrite (u64_small r) by lia.
   replace (a =? 0) with false by lia.
-  rewrite (u64_small (time * r)) by nia.
   replace (D =? 0) with false by lia.
   (* the reference time lies inside reference segment n *)
   pose proof (AudioProofs.fb_ge r F a Hr HF (S vr n)) as Hge. fold time in Hge.
@@ -92,6 +91,7 @@ Proof.
   set (refTime := time * r / a).
   assert (Hlo : S vr n <= refTime) by (apply Z.div_le_lower_bound; lia).
   assert (Hhi : refTime < E vr n) by (apply Z.div_lt_upper_bound; nia).
+  rewrite (u64_small refTime) by (unfold two63, two64 in *; lia).
   assert (Ew : refTime / D = w) by (symmetry; apply (Z.div_unique _ _ w (refTime - w * D)); lia).
   rewrite Ew.
   rewrite (u64_small (w * D)) by (unfold two63, two64 in *; nia).
@@ -225,11 +225,11 @@ Proof.
   destruct (negb (t mod F =? 0)); [discriminate|].
   rewrite (u64_small D) in H by lia. rewrite (u64_small r) in H by lia.
   replace (a =? 0) with false in H by lia.
-  rewrite (u64_small (t * r)) in H by lia.
   replace (D =? 0) with false in H by lia.
   set (refTime := t * r / a) in *.
   assert (HrT : 0 <= refTime <= t * r).
   { unfold refTime. split; [apply Z.div_pos; lia|]. apply Z.div_le_upper_bound; nia. }
+  rewrite (u64_small refTime) in H by lia.
   set (q := refTime / D) in *.
   pose proof (Z.div_mod refTime D ltac:(lia)) as Edm. fold q in Edm.
   pose proof (Z.mod_pos_bound refTime D HD) as Bm.
